@@ -67,10 +67,9 @@ def guarded(fn):
     try:
         return [0, fn()]
     except Exception as e:  # noqa
-        code = ECODE.get(type(e).__name__)
-        if code is None:
-            raise
-        return [1, code]
+        # an exception the model does not know is code 99: it disagrees with every model
+        # answer and fails the oracle (unexpected-raise), it does not stop the run
+        return [1, ECODE.get(type(e).__name__, 99)]
 
 
 # ----------------------------------------------------------- project description ---
@@ -129,8 +128,41 @@ class Proj:
         self.kind = "main"
 
     def text(self):
-        return json.dumps([[c.rel, c.toml()] for c in self.cfgs.values()]
-                          + [sorted(self.files), sorted(self.penv.items())])
+        """the whole case as text: enough to rebuild it (proj_from_text)"""
+        return json.dumps({"cfgs": [[c.rel, c.toml()] for c in self.cfgs.values()],
+                           "files": sorted(self.files), "penv": sorted(self.penv.items()),
+                           "missing": sorted(getattr(self, "missing", [])),
+                           "kind": self.kind, "flags": sorted(self.flags)})
+
+
+def proj_from_text(text):
+    """rebuild a generated project from Proj.text() (used by replay)"""
+    import toml
+    d = json.loads(text)
+    p = Proj()
+    p.kind = d["kind"]
+    p.flags = set(d["flags"])
+    p.files = list(d["files"])
+    p.penv = dict(d["penv"])
+    p.missing = list(d["missing"])
+    locs = set()
+    for rel, txt in d["cfgs"]:
+        data = toml.loads(txt)
+        c = Cfg(rel, data.get("basepath"))
+        c.env = dict(data.get("env", {}))
+        c.locales = data.get("locales")
+        c.rules = [Rule(r.get("reference"), r["l10n"], r.get("locales"), r.get("test"))
+                   for r in data.get("paths", [])]
+        c.includes = [x["path"] for x in data.get("includes", [])]
+        c.excludes = [x["path"] for x in data.get("excludes", [])]
+        if (c.basepath or "").endswith("alt"):
+            c.root_rel = "alt/"
+        p.cfgs[rel] = c
+        locs.update(c.locales or [])
+        if p.top is None:
+            p.top = c
+    p.locales = sorted(l for l in locs if l)
+    return p
 
 
 def rel_to(frm_dir, target):
@@ -871,6 +903,8 @@ def run_one(chk, p, T, locales_to_run, stats):
                 drive = [[[a, opt(l), opt(r), opt(m), tests_ids(t) if t is not None else []]
                           for a, l, r, m, t in log],
                          [obs[1]] if obs[0] == 1 else []]
+                if obs[0] == 1 and obs[1] != 1:
+                    chk.fail("compareProjects-raised", desc, {"code": obs[1], "calls": len(log)})
                 if obs[0] == 1:
                     stats["drive-raised"] = stats.get("drive-raised", 0) + 1
                     chk.hist("compareProjects_raised", "TypeError(l10n-only rule, file present)"
@@ -1249,12 +1283,38 @@ def summarize(out):
 
 
 def replay(chk, path):
+    """re-run the recorded cases (implementation + oracle, and the model when its runner is built)"""
+    import logging
+    logging.getLogger("compare-locales.io").setLevel(logging.CRITICAL)
     data = json.load(open(path))
+    cases = [f["case"] for f in data.get("failures", [])]
+    cases += [d["case"] for d in data.get("disagreements", []) if isinstance(d.get("case"), dict)]
+    model = Model("C13") if os.path.exists(os.path.join(common.BIN, "model_C13")) else None
+    T = os.path.realpath(tempfile.mkdtemp(prefix="c13_"))
     rc = 0
-    for f in data.get("failures", []):
-        print("failure", f["signature"], json.dumps(f["case"])[:2000], f["detail"])
-        rc = 1
-    for d in data.get("disagreements", []):
-        print("disagreement", json.dumps(d)[:3000])
-        rc = 1
+    try:
+        for c in cases:
+            if "project" not in c:
+                print("case without a project text:", c)
+                continue
+            p = proj_from_text(c["project"])
+            before = len(chk.failures) + sum(v["n"] for v in chk.known_seen.values())
+            if "ignore_missing" in c:
+                r, o, d = run_toml(chk, p, T, c["ignore_missing"], {})
+                reqs, impls = [r], [canon_strings(o)]
+            else:
+                reqs, impls, _ = run_one(chk, p, T, [(c.get("locale"), bool(c.get("merge")))], {})
+            after = len(chk.failures) + sum(v["n"] for v in chk.known_seen.values())
+            dis = 0
+            if model and reqs:
+                outs = model.call(reqs)
+                dis = sum(1 for a, b in zip(impls, outs) if a != b)
+            print("replayed kind=%s locale=%r merge=%r: oracle failures %d, model disagreements %d"
+                  % (p.kind, c.get("locale"), c.get("merge"), after - before, dis))
+            for f in chk.failures[before:]:
+                print("  ", f["signature"], str(f["detail"])[:300])
+            if after > before or dis:
+                rc = 1
+    finally:
+        shutil.rmtree(T, ignore_errors=True)
     return rc
